@@ -22,7 +22,7 @@ RULE = c01.RULE.replace("chart field edits by attribute and key, extradata", "SS
     " Round 6: 32-70 charts, second load (loads) after the first result was edited in place." \
     ' Round 8: charts with 258-300 properties, a first parameter longer than 64 KiB.'
 ASSUMPTIONS = c01.ASSUMPTIONS
-MONITORS = ["model_equality", "roundtrip", "restringify", "loads_detects_ssc", "tokenizer_structure", "chart_from_str", "eq_when_notes_last", "second_parse_after_editing_the_first"]
+MONITORS = ["model_equality", "roundtrip", "restringify", "loads_detects_ssc", "tokenizer_structure", "chart_from_str", "eq_when_notes_last", "second_parse_after_editing_the_first", "file_named_almost_like_a_simfile"]
 REQUIRED = ["empty_notes", "interned_notes", "same_object_as_notes", "notes2", "notes_not_last", "chart_multi_value",
             "key_only_in_chart", "value_equal_to_notes", "notes_backslash_without_other_meta", "corpus_start",
             "notes_moved_to_other_key_after_str", "key_starting_with_NOTES_before_the_notes", "simfile_with_32_or_more_charts",
@@ -174,6 +174,34 @@ def check(ctx, case):
             ctx.expect(type(l) is SSCSimfile and l == r, "loads:not-detected-as-ssc-or-differs", type=type(l).__name__)
         except Exception as e:
             ctx.violation(f"loads:raised:{type(e).__name__}", {"exc": repr(e), "text": text[:400]})
+        if ctx.evaluations % 6 == 0:
+            # the same text in a file whose name ends in the letters "sm" / "ssc" without being a .sm / .ssc name:
+            # only the content decides, and the content starts with VERSION
+            import os
+            import tempfile
+
+            tmp = tempfile.mkdtemp(prefix="vmon-c02-")
+            try:
+                for name in ("song.prism", "chasm", "x.plasm", "assc", "notes.xssc", "SM"):
+                    p = os.path.join(tmp, name)
+                    try:
+                        with open(p, "w", encoding="utf-8", newline="") as fh:
+                            fh.write(text)
+                    except UnicodeEncodeError:
+                        break
+                    ctx.mon("file_named_almost_like_a_simfile")
+                    try:
+                        with open(p, encoding="utf-8", newline="") as fh:
+                            a = simfile.load(fh)
+                        b = simfile.open(p, encoding="utf-8")
+                        ctx.expect(type(a) is SSCSimfile and type(b) is SSCSimfile, "file:not-detected-as-ssc-by-content",
+                                   name=name, load=type(a).__name__, open=type(b).__name__)
+                    except Exception as e:
+                        ctx.violation(f"file:raised:{type(e).__name__}", {"name": name, "exc": repr(e)[:200]})
+            finally:
+                import shutil
+
+                shutil.rmtree(tmp, ignore_errors=True)
 
     # stand-alone chart round trip
     for rc, mc in zip(s.charts, m.charts):
